@@ -3,6 +3,7 @@ package main
 import (
 	"context"
 	"fmt"
+	"os"
 	"path/filepath"
 	"runtime"
 	"sort"
@@ -154,6 +155,10 @@ func (rc *RunCtx) cancelFamily(u *ExecUniverse) {
 			switch {
 			case strings.HasPrefix(cl, "drift."):
 				drift[cl]++
+				if os.Getenv("VERIF_SHOWDRIFT") != "" && drift[cl] <= 12 {
+					ref := u.Cases[id-1]
+					fmt.Printf("  DRIFT %s %s lax=%v real polls=%d\n", cl, u.human(ref), ref.Lax, recs[id-1].Runs[0].Polls0)
+				}
 			case strings.HasPrefix(cl, "infra."):
 				rc.infra("cancel record %d: %s", id, cl)
 			case strings.HasPrefix(cl, "C20."):
